@@ -282,7 +282,8 @@ fn random_attrs(rng: &mut Rng) -> Vec<(String, String, u8)> {
         _ => rng.range(2, 3),
     };
     let names = ["class", "id", "data-x", "title", "hidden", "DATA-Y", "lang"];
-    let values = ["a", "b c", "x1", "page", "en", "k-v", ""];
+    // (a quoted attribute value may contain '>': the start tag ends at the first '>' *outside* quotes)
+    let values = ["a", "b c", "x1", "page", "en", "k-v", "", "w>800", "if (a>b) go()"];
     let mut out: Vec<(String, String, u8)> = Vec::new();
     for _ in 0..n {
         let name = rng.pick(&names).to_string();
@@ -291,7 +292,7 @@ fn random_attrs(rng: &mut Rng) -> Vec<(String, String, u8)> {
         }
         let mut value = rng.pick(&values).to_string();
         let mut q = rng.below(4) as u8;
-        if q == 0 && (value.is_empty() || value.contains(' ')) {
+        if q == 0 && (value.is_empty() || value.contains(' ') || value.contains('>')) {
             q = 1;
         }
         if q == 3 {
@@ -487,8 +488,15 @@ pub fn random_doc(rng: &mut Rng, safe: bool) -> Doc {
             if !safe && rng.chance(1, 8) {
                 // a raw-text element (noscript, noembed, noframes, xmp, iframe) next to the chain element whose text
                 // looks like another occurrence of it: raw text is not markup, the path does not run through it
-                let raw_tag = *rng.pick(&["noscript", "noembed", "noframes", "xmp", "iframe", "NoScript"]);
-                let text = format!("<{tag} class=\"raw\">in raw text</{tag}><img src=\"p.gif\">");
+                let raw_tag = *rng.pick(&["noscript", "noembed", "noframes", "xmp", "iframe", "NoScript", "script", "script"]);
+                let text = if raw_tag == "script" {
+                    // legacy inline script: an HTML comment opener, a nested script element and, after the nested end
+                    // tag, strings that look like the chain element (script data double-escaped state: the nested
+                    // end tag does not end the script)
+                    format!("<!-- <script src=\"n.js\"></script> document.write(\"<{tag} class='js'>x</{tag}>\"); //-->")
+                } else {
+                    format!("<{tag} class=\"raw\">in raw text</{tag}><img src=\"p.gif\">")
+                };
                 let at = rng.below(siblings.len() + 1);
                 siblings.insert(at, Node::El(plain_element(raw_tag, &[], Kind::Normal, Some(&text))));
             }
